@@ -669,7 +669,7 @@ std::string resource_suffix()
 {
     return g_huge_length ? ":huge-length-attribute" : "";
 }
-int g_saved_stdout = -1;
+int g_saved_stdout = -1, g_saved_stderr = -1;
 void restore_stdout()
 {
     if(g_saved_stdout >= 0)
@@ -677,6 +677,11 @@ void restore_stdout()
         fflush(stdout); // into the capture file, which is dropped
         dup2(g_saved_stdout, 1);
         g_saved_stdout = -1;
+    }
+    if(g_saved_stderr >= 0)
+    {
+        dup2(g_saved_stderr, 2);
+        g_saved_stderr = -1;
     }
     g.active = false;
 }
@@ -772,10 +777,14 @@ RunOutcome run_sbeppc(const std::vector<std::string>& args, const std::vector<Fa
 
     // stdout -> memfd
     fflush(stdout);
+    fflush(stderr);
     int saved = dup(1);
+    int saved_err = dup(2);
     int cap = memfd_create("stdout", 0);
     dup2(cap, 1);
+    dup2(cap, 2); // a diagnostic on stderr is a diagnostic too
     g_saved_stdout = saved;
+    g_saved_stderr = saved_err;
     sim::crash_ctx().before_report = restore_stdout;
 
     g.faults = faults;
@@ -826,16 +835,23 @@ RunOutcome run_sbeppc(const std::vector<std::string>& args, const std::vector<Fa
     for(auto& kv : g.open) close(kv.first);
     g.open.clear();
     fflush(stdout);
+    fflush(stderr);
     dup2(saved, 1);
     close(saved);
+    dup2(saved_err, 2);
+    close(saved_err);
     g_saved_stdout = -1;
+    g_saved_stderr = -1;
     off_t len = lseek(cap, 0, SEEK_END);
     lseek(cap, 0, SEEK_SET);
     std::string out((size_t)std::max<off_t>(len, 0), '\0');
     if(len > 0) raw_read(cap, out.data(), (size_t)len);
     close(cap);
     ro.out = out + ro.out;
-    ro.diag = ro.out.find("Error") != std::string::npos;
+    // "a diagnostic line": any visible text on stdout or stderr (the wording is not part of the property)
+    ro.diag = false;
+    for(unsigned char ch : out)
+        if(std::isgraph(ch)) ro.diag = true;
     ro.trace = g.trace;
     ro.hard = g.fired_hard;
     ro.soft = g.fired_soft;
